@@ -14,6 +14,7 @@ import pyir_loop
 import pyir_policy
 import pyir_sugar
 import pyir_sleep
+import pyir_state
 import pyir_translate
 
 THEOREMS = ["consume_ir_correct", "remaining_ir_correct", "init_ir_correct", "ir_run_correct", "source_meets_spec"]
@@ -279,15 +280,49 @@ def sugar_tie(chk):
             "not_translated": ["RetryPolicy.__getattr__ / __setattr__ (driven by the correspondence: entry point retrypolicyattr)"]}
 
 
+STATE_THEOREMS = ["emit_ir_correct", "check_abort_ir_correct", "record_failure_ir_correct"]
+
+
+def state_tie(chk):
+    """_RetryState.emit / check_abort / record_failure (policy/state.py) and the timeline hook (runner/timeline.py) -> PyIRE token
+    lists + obligations (coq/templates/StateIRProofs.v.in): the translated functions are Runner.emit, Runner.check_abort and the
+    last_fail update."""
+    out = os.path.join(chk.workdir, "StateIR.v")
+    tpl = os.path.join(common.COQ, "templates", "StateIRProofs.v.in")
+    try:
+        prog = pyir_state.generate(os.path.join(common.REPO, "src"), out, tpl)
+    except pyir_translate.TranslationError as e:
+        return {"ok": False, "stage": "translate", "detail": f"the state operations of the retry loop are outside the translated fragment: {e}"}
+    except (OSError, SyntaxError) as e:
+        return {"ok": False, "stage": "translate", "detail": f"redress/policy/state.py or runner/timeline.py could not be read: {e}"}
+    rc, stdout, stderr, wall = common.run(["coqc", "-Q", common.THEORIES, "Redress", "-w", "none", out], 600, cwd=chk.workdir)
+    if rc != 0:
+        where = "StateIR.v"
+        m = re.search(r"line (\d+)", stderr)
+        if m:
+            lines = open(out).read().split("\n")
+            for k in range(int(m.group(1)) - 1, -1, -1):
+                mm = re.match(r"\s*(Lemma|Theorem)\s+(\w+)", lines[k])
+                if mm:
+                    where = mm.group(2)
+                    break
+        return {"ok": False, "stage": "proof", "theorem": where,
+                "detail": f"a translated state operation no longer proves equal to its Runner.v counterpart ({where}): {stderr.strip()[-500:]}",
+                "ir": prog}
+    return {"ok": True, "stage": "done", "theorems": STATE_THEOREMS, "closed_under_global_context": stdout.count("Closed under the global context"),
+            "seconds": round(wall, 1), "functions": ["_RetryState.emit", "_RetryState.check_abort", "_RetryState.record_failure",
+                                                     "runner/timeline.py: _resolve_timeline (the hook)"]}
+
+
 def report(chk, tie, name, searched):
     """shared bookkeeping: coverage, obligations, and the violation when the tie is broken and nothing else was found"""
     key = "source_translation" if "source_translation" not in chk.coverage else f"source_translation_{name}"
     chk.coverage[key] = {k: v for k, v in tie.items() if k != "ir"}
-    n = len(tie.get("theorems") or {"circuit": CIRCUIT_THEOREMS, "classify": CLASSIFY_THEOREMS, "failure": FAILURE_THEOREMS, "sleep": SLEEP_THEOREMS, "loop": LOOP_THEOREMS, "policy": POLICY_THEOREMS, "sugar": SUGAR_THEOREMS}.get(name, THEOREMS))
+    n = len(tie.get("theorems") or {"circuit": CIRCUIT_THEOREMS, "classify": CLASSIFY_THEOREMS, "failure": FAILURE_THEOREMS, "sleep": SLEEP_THEOREMS, "loop": LOOP_THEOREMS, "policy": POLICY_THEOREMS, "sugar": SUGAR_THEOREMS, "state": STATE_THEOREMS}.get(name, THEOREMS))
     chk.coverage["obligations"] = chk.coverage.get("obligations", 0) + n
     if tie["ok"]:
         chk.coverage["discharged"] = chk.coverage.get("discharged", 0) + n
-        mod = {"circuit": "CircuitIR", "classify": "ClassifyIR", "failure": "FailureIR", "sleep": "SleepIR", "loop": "LoopIR", "policy": "PolicyIR", "sugar": "SugarIR"}.get(name, "BudgetIR")
+        mod = {"circuit": "CircuitIR", "classify": "ClassifyIR", "failure": "FailureIR", "sleep": "SleepIR", "loop": "LoopIR", "policy": "PolicyIR", "sugar": "SugarIR", "state": "StateIR"}.get(name, "BudgetIR")
         chk.coverage["theorems"] = list(chk.coverage.get("theorems", [])) + [f"{mod}.{t}" for t in tie["theorems"]]
     elif not chk.violations:
         chk.violation({"kind": "source-translation", "what": tie["detail"], "stage": tie["stage"],
@@ -295,12 +330,13 @@ def report(chk, tie, name, searched):
 
 
 def runner_ties(chk, searched="scripted call sequences (random, abort sentinels and sweeps): no property violation found"):
-    """every theorem about the retry loop is a theorem about Runner.run; three translations tie Runner.run to the source:
+    """every theorem about the retry loop is a theorem about Runner.run; four translations tie Runner.run to the source:
     _handle_failure = Runner.handle_failure (PyIRF), the sleep protocol = Runner.backoff (PyIRS), the loop bodies iterated =
-    Runner.run given those two (PyIRL).  All three are regenerated and re-proved (concurrently) for each runner property."""
+    Runner.run given those two (PyIRL), and the state operations they all use: emit, check_abort, record_failure (PyIRE).  All four
+    are regenerated and re-proved (concurrently) for each runner property."""
     from concurrent.futures import ThreadPoolExecutor
-    with ThreadPoolExecutor(max_workers=3) as ex:
-        futs = [(name, ex.submit(fn, chk)) for name, fn in (("failure", failure_tie), ("sleep", sleep_tie), ("loop", loop_tie))]
+    with ThreadPoolExecutor(max_workers=4) as ex:
+        futs = [(name, ex.submit(fn, chk)) for name, fn in (("failure", failure_tie), ("sleep", sleep_tie), ("loop", loop_tie), ("state", state_tie))]
         ties = [(name, f.result()) for name, f in futs]
     for name, tie in ties:
         report(chk, tie, name, searched)
